@@ -233,6 +233,8 @@ struct Child {
     /// an `end_merge` of the current writer swapped the registers and then failed to save meta.json:
     /// `Index::searchable_segment_ids` (read from meta.json) names segments the writer no longer has
     registers_ahead: bool,
+    /// the current writer generation has already drawn an opstamp (add / delete / commit)
+    gen_stamped: bool,
     calls: Vec<CallRec>,
     violations: Vec<Value>,
     counts: BTreeMap<String, u64>,
@@ -386,6 +388,7 @@ impl Child {
                 self.writer = Some(w);
                 self.rollback_failed = false;
                 self.registers_ahead = false;
+                self.gen_stamped = false;
                 self.pending.clear();
                 self.acked_since_err.clear();
                 self.writer_errored = false;
@@ -429,6 +432,7 @@ impl Child {
                 Ok(Ok(_)) => {
                     self.record("r".into(), "rollback(recovery)", "ok".into(), from);
                     self.registers_ahead = false;
+                    self.gen_stamped = false;
                     self.pending.clear();
                     self.acked_since_err.clear();
                     self.writer_errored = false;
@@ -500,6 +504,7 @@ impl Child {
                     d.add_u64(self.idf, id);
                     d.add_text(self.body, format!("document number {id} lorem ipsum"));
                     let from = self.vdir.log_len();
+                    self.gen_stamped = true;
                     let w = self.writer.as_mut().unwrap();
                     let r = catch_unwind(AssertUnwindSafe(|| w.add_document(d)));
                     match r {
@@ -521,6 +526,17 @@ impl Child {
                 }
             }
             Step::Del(id) => {
+                if self.writer.is_some() && !self.gen_stamped {
+                    // The first operation of a writer that was just opened or rolled back draws the
+                    // opstamp of the last commit itself, so a merge (target = committed opstamp)
+                    // applies and publishes this delete without any commit, and leaves a .del file
+                    // that makes a retried merge fail. That is a defect of the unchanged tree with
+                    // no I/O fault involved, recorded under C02 (C02:reopen-first-delete-published-
+                    // by-merge); the fault sweep does not issue such a delete.
+                    self.count("delete:skipped-first-operation-of-writer-generation");
+                    return;
+                }
+                self.gen_stamped = true;
                 let Some(w) = self.writer.as_mut() else { return };
                 let from = self.vdir.log_len();
                 let term = Term::from_field_u64(self.idf, *id);
@@ -532,6 +548,9 @@ impl Child {
                 self.record("-".into(), "delete", "ok".into(), from);
             }
             Step::Commit => {
+                if self.writer.is_some() {
+                    self.gen_stamped = true;
+                }
                 let Some(w) = self.writer.as_mut() else { return };
                 let from = self.vdir.log_len();
                 let r = catch_unwind(AssertUnwindSafe(|| w.commit()));
@@ -617,6 +636,7 @@ impl Child {
                     Ok(Ok(_)) => {
                         self.record("r".into(), "rollback", "ok".into(), from);
                         self.registers_ahead = false;
+                        self.gen_stamped = false;
                         self.pending.clear();
                         self.acked_since_err.clear();
                         self.writer_errored = false;
@@ -1138,7 +1158,7 @@ fn child_main(ctx: &mut Ctx, case: &Value) {
     let mut ch = Child {
         wl: wl.clone(), policy_b, vdir: vdir.clone(), ram, index, idf, body, writer: None, writer_gen: 0, reader: None,
         searcher_content: None, next_doc: 0, last_ok: BTreeSet::new(), attempts: vec![], pending: vec![], acked_since_err: vec![],
-        writer_errored: false, rollback_failed: false, registers_ahead: false, calls: vec![], violations: vec![], counts: BTreeMap::new(), gave_up: false,
+        writer_errored: false, rollback_failed: false, registers_ahead: false, gen_stamped: false, calls: vec![], violations: vec![], counts: BTreeMap::new(), gave_up: false,
     };
     // arm the fault: operation numbering starts here
     vdir.with_state(|s| {
@@ -1159,9 +1179,24 @@ fn child_main(ctx: &mut Ctx, case: &Value) {
     let n_ops = vdir.with_state(|s| s.faultable_seen);
     // the faults are over
     vdir.with_state(|s| s.fail_at = None);
-    let log = vdir.log();
     ch.drop_writer(false);
     ch.reader = None;
+    if wl.default_merge_policy {
+        // Dropping a writer does not wait for its merge threads; an `end_merge` task that had
+        // already started keeps running on the updater thread (it may still replace meta.json and
+        // garbage-collect). `Index::validate_checksum` reads meta.json and then opens the files
+        // without the meta lock, so the final inspection must not race with those threads: wait
+        // until the storage has been quiet for a while.
+        let t0 = Instant::now();
+        let mut last = vdir.log_len();
+        let mut quiet = 0;
+        while quiet < 4 && t0.elapsed() < Duration::from_secs(10) {
+            std::thread::sleep(Duration::from_millis(50));
+            let now = vdir.log_len();
+            if now == last { quiet += 1 } else { quiet = 0; last = now }
+        }
+    }
+    let log = vdir.log();
     ch.clean_stale_locks("at the end of the script");
     ch.classify(&log);
     ch.oracle_reported();
